@@ -147,6 +147,30 @@ def chunk_obligations(ctx, rec, m, tag=''):
         p = a.price
         ctx.prove(Not(And(lo_all <= p, p <= hi_all)), 'C02c:no-active-order-left-inside-chunk-range',
                   {'order': rec.order_info.get(id(a), {}).get('seq'), 'fills_in_chunk': nfill})
+    # reaction orders (created by hooks during the chunk): against the minutes of the chunk strictly after their creation
+    for kind, od in m['events']:
+        if kind != 'submit' or od.type == 'MARKET' or not rec.order_info[id(od)].get('accepted'):
+            continue
+        if not any(od is x for x in m['active_after']):
+            continue
+        info = rec.order_info[id(od)]
+        ct = info['created_time']
+        later = [i for i in range(len(cs)) if cs[i][0] >= ct]  # minutes that open at or after the creation time
+        if not later:
+            continue
+        lo2 = hi2 = None
+        for i in later:
+            l_i, h_i = cs[i][4], cs[i][3]
+            if i > 0:  # each minute's range is extended to the previous close
+                pc = cs[i - 1][2]
+                l_i = sx.smin(l_i, pc) if (sx.is_sym(l_i) or sx.is_sym(pc)) else min(l_i, pc)
+                h_i = sx.smax(h_i, pc) if (sx.is_sym(h_i) or sx.is_sym(pc)) else max(h_i, pc)
+            lo2 = l_i if lo2 is None else (sx.smin(lo2, l_i) if (sx.is_sym(lo2) or sx.is_sym(l_i)) else min(lo2, l_i))
+            hi2 = h_i if hi2 is None else (sx.smax(hi2, h_i) if (sx.is_sym(hi2) or sx.is_sym(h_i)) else max(hi2, h_i))
+        ctx.event('reaction-order-survives-chunk' + tag)
+        p = od.price
+        ctx.prove(Not(And(lo2 <= p, p <= hi2)), 'C02c:no-reaction-order-left-inside-later-minutes-of-chunk',
+                  {'order': info.get('seq'), 'later_minutes': len(later)})
     # market orders created by hooks inside the chunk must not wait for later minutes of the chunk
     for kind, od in m['events']:
         if kind == 'submit' and od.type == 'MARKET' and rec.order_info[id(od)].get('accepted'):
@@ -177,6 +201,7 @@ def _jobs(tier):
         add(n=3, kind='T2', side='long', exch='futures', sym_from=2)
         add(n=3, kind='T1', side='long', exch='spot')
         add(n=6, kind='T8', side='long', exch='futures', fast=True, tf='3m', sym=[1, 4])
+        add(n=6, kind='T1', side='long', exch='futures', fast=True, tf='3m', sym=[3, 4])  # two symbolic minutes inside one chunk
     else:
         for side in ('long', 'short'):
             for kind in ('T1', 'T1m', 'T8'):
